@@ -71,6 +71,13 @@ def check(scn, out, counters):
             how = "second-call-entered-after-first-abort-was-sent" if late else "calls-entered-concurrently"
             viol.append({"key": "double-abort-request|%s" % how, "detail": "%s/%s: %d abort() calls, %d A-ABORT requests issued; call seqs %r, first sent at seq %d" % (
                 name, side, len(calls), len(sent), [c["seq"] for c in calls], sent[0]["seq"])})
+    # ---- "within the configured timeouts": the requestor's release() waits for the peer no longer than its ACSE timeout
+    if out.get("release_call_s") is not None and scn.get("req_timeouts"):
+        counters["release_calls_timed"] = 1
+        if out["release_call_s"] > 3 * out["req_acse_timeout"] + 1.0:
+            viol.append({"key": "release-call-outlasted-acse-timeout|%s" % name,
+                         "detail": "%s: release() returned after %.2f s, the requestor's ACSE timeout is %.1f s (DIMSE timeout %.1f s)" % (
+                             name, out["release_call_s"], out["req_acse_timeout"], scn["req_timeouts"][1])})
     # ---- crashes are reported first (and explain everything downstream)
     crashed = False
     for pr in out["fsm_problems"]:
